@@ -12,767 +12,822 @@ Definition show_fres (r : fres) : string :=
   end.
 Definition check (rs : list rune) : string := digest (show_fres (format_res rs)).
 Definition full (rs : list rune) : string := show_fres (format_res rs).
-Eval vm_compute in ("<<<M1875>>>" ++ check (runes_of_ascii "  // @lengthOf(
-    MetaData BodyLength
-{
-u8x u128
-
-`a\` , }
-packet
-	// c
-	  stringy {
-	}
-packet// " ++ [128512]%N ++ runes_of_ascii " emoji
-
-	a1
-	{
-i8
-
-    f32a
-
-`
-`
-
-    , 
-repeat
-i64
-    len
-
-, @calculatedFrom(
-
-    ""\" ++ [233]%N ++ runes_of_ascii """
-)
-string
-    leftPad
-	`line1
-line2` ,	match
-	a1
-as 
-float {
-
-[  007 ,3 ] :  repeatCount 
-, 3/// triple
-
-:
-	MetaDataX  ""CRC32""
-    /// triple
-
-: 
-u128 
-
-// trailing space 
-	,
-	[
-""a\""b""
-    ,
-
-""// no comment""
-] : roots
-    ,  ""\" ++ [233]%N ++ runes_of_ascii """ : 	 // c
-    	A
-
-    }	// packet A { u8 x, }
-	,
-zchar[
-
-42
-
-    ] Pad ,/// triple
-	@calculatedFrom(
-""" ++ [233]%N ++ runes_of_ascii "t" ++ [233]%N ++ runes_of_ascii """ )	// `tick` ""quote"" 'q'
-	  match
-chars  as // trailing space 
-      string_ { 3
-	:
-
-    options1 
-,  } 
-,uint32
-	packetx ``  ,
-	@tag(  // 50% %s
-
-42  )
-
-@tag( 1
-
-    )  /// triple
-  @calculatedFrom(
-
-    """ ++ [128512]%N ++ runes_of_ascii """)_x
-
-    `// not a comment` 
-,
-	} root
-
-packet
-repeatCount	{
-	@leftPad
-( ) char[
-
-0 ]
-x_y_z
-	@calculatedFrom(
-
-""1"" 	 //x
-	),@rightPad( )
-
-    char[]
-int,
-f64	// c
-asx,	repeat
-
-    Pad ,match i64_
-
-as 
-roots {[ ""1"",
-
-""packet""
-
-] 
+Eval vm_compute in ("<<<M1874>>>" ++ check (runes_of_ascii "  options
 /// triple
-	:
-a1
-,	""`tick`""
-	: 
-	    // c
-  trueish 
-,
-[	3
 
-, ""\n""	// `tick` ""quote"" 'q'
-  , ""`tick`"" , 
-""it's"" , 
-10 
-,  ""a\""b"" // a // b
-  ,
-""CRC32""  // a // b
+//
 
-  ]
-        //	t
-    :
-
-As ,
-
-    [
-10,	10
-
-    ]
-    :
-
-    options1
-,
-	""CRC32""	:
-a1
-,
-65535
-:
-
-u ,  // c
-  }
-,@calculatedFrom(
-	""x y""
-	) @tag(
-    255
-	)
-    @tag(	1 )  // c
-	zchar[
-1
-
-] 
-crc  // " ++ [27880; 37322]%N ++ runes_of_ascii "
-`
-`
-
-    , 
-repeat	u16 tag	`crlf
-line`
-
-    ,	@leftPad (' '
-
-    )
-
-    roots
-@calculatedFrom(  
-      //	t
-	""""
-)
-,
-
-    }
-
-")).
-Eval vm_compute in ("<<<M1626>>>" ++ check (runes_of_ascii "
-
-  // top
-  packet  
-      // c0
-	  NewOrder{
-// c2
-    u32	// c3
-qty
-	, 
-  // c5
-    	}packet 
-      // c7
-
-Cancel 
 {
-	u64  // c10a
 
-// c10b
-id  // c11
-		,  // c12a
-// c12b
-
-  }
-packet 	 // c14a
-  // c14b
-	  Business// c15
-
-  {	// c16
-
-u8
-	Kind // c18
-	,match // c20
-  Kind 	 // c21a
-
-	// c21b
-	as Detail 
-// c23
-
-{ 1 	 // c25
-	:
-
-    NewOrder
-
-// c27
-	  , // c28a
-    // c28b
-	2
-
-: 
-// c30
-	Cancel  // c31a
-  // c31b
-    	,
-	} 
-// c33
-
-, 	 // c34
-    }	packet// c36
-  TcpFrame // c37a
-  // c37b
-  {// c38
-
-	u8 // c39a
-// c39b
-T 	 // c40
-	, 	 // c41
-  match 	 // c42
-T
-
-as
-	    // c44
-
-  Body 
-    // c45
-    { 1
-:	// c48a
-	  // c48b
-	Business
-,
-}	// c51a
-
-	// c51b
-,  // c52a
-
-// c52b
-
-  }  // c53
-  packet // c54
-
-  UdpFrame {  
-  // c56
-	u8 	 // c57
-U
-    // c58
-	, 	 // c59
-
-  match  // c60a
-// c60b
-U  as	// c62
-    Body 	 // c63a
-  // c63b
-{ 
-
-// c64
-	1:// c66
-Business
-
-    , // c68a
-  // c68b
-    }// c69
-  , 
-    // c70
-    Business 
-      // c71
-  extra
-
-// c72
-	, 
-}	root  // c75a
-// c75b
-    packet// c76a
-
-  // c76b
-Wire 
-    // c77
-
-{ 	 // c78
-		TcpFrame 
-
-// c79
-,// c80a
-  // c80b
-	UdpFrame	// c81a
-  // c81b
-  , 	 // c82
-
-}  // c83")).
-Eval vm_compute in ("<<<M76>>>" ++ check (runes_of_ascii "packet rootA{
-@lengthOf( a1 ) f32a
-@lengthOf( Header )
-    `// not a comment` ,match  T as
-    i64_
-{42: // packet A { u8 x, }
-string_,	}, match// trailing space 
-stringy
-as Header {[	65535]: msg_type , ""it's""	:u
-// " ++ [128512]%N ++ runes_of_ascii " emoji
-// " ++ [27880; 37322]%N ++ runes_of_ascii "
-,
-    ""\n""
-: lengthOf // `tick` ""quote"" 'q'
-} , @tag(
-    42 )
-    repeat
-zchar f32a `u8 x,` ,@tag( 255
-) //
-repeat //	t
-Pad {  x T
-,
-}
-    , @calculatedFrom(  ""{,}""
-    /// triple
-    )
-repeat leftPad
-    {
-    //	t
-    u64 u8x `" ++ [28040; 24687; 31867; 22411]%N ++ runes_of_ascii "`
-,len @calculatedFrom(""\" ++ [233]%N ++ runes_of_ascii """ )
-    , zchar[	4294967296 ] // " ++ [27880; 37322]%N ++ runes_of_ascii "
-falsey,}
-    , @tag(
-    7
-)match i8i8 as
-    pack{ 3	: string_ 0123456789
-:packetx
-,[42 ] : tag ,""\n"" : a1 , [ 0123456789	,
-    1 ]	:
-    x_y_z 0:
-float }
-    ,  repeat
-u128 As , }	options { packetx=
-    """ ++ [128512]%N ++ runes_of_ascii """; msg_type = ' '
-; Packet// 50% %s
-=10;
-    }
-    // a // b
-    packet Pad//
-{
-    // " ++ [27880; 37322]%N ++ runes_of_ascii "
-    char[] pack ,	repeat float32
-falsey  ,char[42
-]	Z9_ , Logon  @lengthOf( i8i8
-)
-    `
-`	,
-tag{	x , i32 float @lengthOf( crc
-    ) , } , }
-")).
-Eval vm_compute in ("<<<M1958>>>" ++ check (runes_of_ascii "
-MetaData 
-BodyLength
-
-    {
-}packet
-
-x_y_z {	@lengthOf(
-	roots
-    )
-
-A{ // " ++ [128512]%N ++ runes_of_ascii " emoji
-	repeat	zchar[0123456789]
-Z9_ `a\`
-
-,
-    }	, }
-options 	 // packet A { u8 x, }
-{
-Pad
-=	""x y""
-;	// trailing space 
-
-trueish  = 
-true
-
-    body
-	=	3
-; 
 matchKey
 
 =
-true //x
-  ;
-    i64_	=
-	char[]
-;
-} packet
-	Packet	{
 
-    char[] 
-  // " ++ [128512]%N ++ runes_of_ascii " emoji
-  // `tick` ""quote"" 'q'
+true
+;  packetx
+= uint32 ; metadata	=
 
-  float
+    int64 ;
+Packet =
+float64
+	_x
+    =  // @lengthOf(
+	""" ++ [233]%N ++ runes_of_ascii "t" ++ [233]%N ++ runes_of_ascii """ }  root 
+packet
+asx {
+	@rightPad( '\x00' ) @calculatedFrom( """"//
+	) @tag(
+4294967296
+    )  msg_type
+{ repeat
+	zchar[
 
-    @calculatedFrom(""`tick`"") ,
+65535 ]
+	charz `{ , }`
+, char
+    roots
+,  T
+{	rootA  len ,
+    }
+	,repeat u128
+`u8 x,`
+    , } ,
+}
+root 
+packet	MetaDataX 
+{	// c
+  char[
+	4294967296 ]
+    Z9_	// `tick` ""quote"" 'q'
+      ,
+lengthOf// c
 
-char[] charz @calculatedFrom(""abc"")  ,
-    match As
+	rootA
+`{ , }`	,
+	@rightPad ('0'
+	)
+    zchar[ 00 ]i8i8
 
-    as 
-	// packet A { u8 x, }
-      asx// @lengthOf(
+    ,
+
+    char[ 
+1]
+a1 , 
+// c
+  float32	crc
+`
+`
+,
+
+Z9_
+	{  f32a	{ float32//
+	len ,
+f32a {  char[
+0 ] // " ++ [27880; 37322]%N ++ runes_of_ascii "
+  pack	@calculatedFrom(
+
+    ""it's""	)
+
+,
+    T@lengthOf(// 50% %s
+f32a ) 
+// c
+	// `tick` ""quote"" 'q'
+  , i64
+lengthOf // " ++ [128512]%N ++ runes_of_ascii " emoji
+	@calculatedFrom( 
+""x y""
+
+) 
+,zchar[4294967296 
+]
+As	@calculatedFrom(""x y""
+),
+    }
+
+,
+	}
+,
+	repeat calculatedFrom  {
+
+repeat
+Packet{x
+,
+} ,
+    } ,
+u8x
+{	metadata
+@calculatedFrom( ""1""
+
+) 
+
+// 50% %s
+  , repeat
+
+zchar[ // a // b
+		65535] Z9_ 
+, 
+    // " ++ [128512]%N ++ runes_of_ascii " emoji
+	// a // b
+	}  , match
+
+    As as
+repeatCount
+    {
+    65535 :
+roots
+	,	""packet"": uint8x
+	,3  :	A,
+
+""{,}"" :	leftPad
+
+    ,
+}
+	,
+} ,  @calculatedFrom(  // trailing space 
+
+""// no comment""
+
+    )  repeat stringy
+asx ,char[] MetaDataX 
+@lengthOf( 
+    // " ++ [128512]%N ++ runes_of_ascii " emoji
+// packet A { u8 x, }
+    A ) ,
+	@rightPad
+
+(
+
+'0'
+)
+
+    @leftPad
+
+(
+	' ' 
+)  Z9_ @calculatedFrom(
+    ""a\""b""
+
+    ) ,
+    match  // packet A { u8 x, }
+	o
+as
+repeatCount
+{ [3  ,0123456789]
+
+: 
+// c
+  string_  , 4294967296
+: Logon
+	,7
+: 
+o
+
+    ,
+
+}
+, }  packet
+body
     {
 
-    [
-    """ ++ [28040; 24687]%N ++ runes_of_ascii """
-, ""`tick`""
-,
-""{,}""
-,
-	""{,}""	, ""a	b""
-
-    // " ++ [27880; 37322]%N ++ runes_of_ascii "
-
-,
-1 ,
-""\" ++ [233]%N ++ runes_of_ascii """ 
-]	:
-
-rootA
-, 255  :asx
-
-42 
-:
-a1
-
-    ,42 :x_y_z""""
-    :msg_type ,
-    7 
-:
-    f32a, }, @leftPad 
-( '0' ) repeatCount crc
-    `// not a comment`,
-	@lengthOf(
-    MetaDataX 
-) 
-float64 falsey@calculatedFrom(
-	""\" ++ [233]%N ++ runes_of_ascii """
-
-) 
-`" ++ [233]%N ++ runes_of_ascii "`
-,
-
-    }
+}
 ")).
-Eval vm_compute in ("<<<M242>>>" ++ check (runes_of_ascii "/// triple
-packet
-    falsey
-{ } packet Logon { @tag( // @lengthOf(
-1 ) // c
-body a1 ,repeat BodyLength,repeat Foo
-    { match
-rootA as x { [3 ]
-    :
-    //
-    i8i8 }
-    , match charz as // a // b
-charz {007	: Packet , [ ""// no comment"" ] // trailing space 
-:/// triple
-A
-    ,
-    [ 10 ]
-: float
-,
-[ ""`tick`"" , 10 ]
-:
-    int
-,  } ,
-    }
-    ,// " ++ [27880; 37322]%N ++ runes_of_ascii "
-repeat u8x , asx{int32 Packet
-    @calculatedFrom(
-// 50% %s
-// a // b
-""// no comment""),},
-    @lengthOf( leftPad ) int8 float
-//
-// @lengthOf(
-@calculatedFrom( ""CRC32"" ), lengthOf// packet A { u8 x, }
-{ char[65535] string_ @calculatedFrom( """") // a // b
-,} ,len @calculatedFrom( """ ++ [233]%N ++ runes_of_ascii "t" ++ [233]%N ++ runes_of_ascii """	),	@lengthOf( As)
-char[ 1 ]
-BodyLength// " ++ [27880; 37322]%N ++ runes_of_ascii "
-,
-    } // a // b")).
-Eval vm_compute in ("<<<M70>>>" ++ check (runes_of_ascii "packet  u128
+Eval vm_compute in ("<<<M1935>>>" ++ check (runes_of_ascii "
+packet	A
 {
-    string a1 ,x ,
-    @calculatedFrom( ""\n""
-)
-    @tag( 0 ) @tag(42 ) i8 Packet @calculatedFrom( ""a	b"" // @lengthOf(
-) `a\`	, @calculatedFrom(
-    ""\n""// @lengthOf(
-)
-repeat string uint8x `{ , }` , char[] string_ , } packet repeatCount {  @leftPad ( '\x00'
-) o @calculatedFrom(""abc"" ) `u8 x,` ,  char[ 1]
-    repeatCount	,
-    char[] x , @tag( 007
-)
-    repeat i16
-u8x `a\`, @lengthOf( u ) repeat uint16 u128 , repeat uint8 repeatCount ,repeat stringy {char[ 10 ] options1,int `doc`
-,}
-, } MetaData BodyLength {i64 // " ++ [27880; 37322]%N ++ runes_of_ascii "
-x_y_z
-    `" ++ [233]%N ++ runes_of_ascii "`,u64 x `
-`
-, asx asx,char[ 3
-    ]
-leftPad , }
-MetaData zchar //	t
-{}
-")).
-Eval vm_compute in ("<<<M1611>>>" ++ check (runes_of_ascii "
 
-  packet  // c
+    @rightPad
+    (' '
+    )
+	// trailing space 
+    zchar[
+
+    42  
+      // 50% %s
+	]
+MetaDataX 
+, repeat
+    int32	// 50% %s
+	Logon 
+,leftPad
+string_  // packet A { u8 x, }
+
+,
+@calculatedFrom( ""packet""
+
+)
+char[
+
+    3
+]
+    // 50% %s
+
+  Logon`{ , }`
+    , match
+    crc as
 
 _x
 
-    {	calculatedFrom  @lengthOf( 
-roots
-)
+    { 
+65535
 
-    `it's` ,	match metadata
-	as
-	BodyLength 
-{ [
-    10	,	10
-,
-""a\""b"" 
-,
-    """"	//	t
-  	,
-""\n""
-,  // @lengthOf(
+    :
+	float
+    , 
+00 :
+BodyLength [ 
+""" ++ [128512]%N ++ runes_of_ascii """, 	 // `tick` ""quote"" 'q'
   ""a\\""
-    ,
 
-4294967296 ] 
-:	u
-	,
-    }	,
-repeat // trailing space 
-    i64_ Packet// " ++ [128512]%N ++ runes_of_ascii " emoji
+    ,	// packet A { u8 x, }
+		""a\""b""
 
-	`{ , }`  // " ++ [27880; 37322]%N ++ runes_of_ascii "
-	, // packet A { u8 x, }
-  @tag( 
-65535 )
-    char[] float
-    `crlf
-line`
-
-,
-
-    char[	7  ] 
-	/// triple
-	  x
-
-@calculatedFrom( 
-""{,}"" )  
-  /// triple
-  // a // b
-	, @leftPad
-	(
-	)u64
-stringy 
+    , 
+""// no comment"",	""\n"",
+	255
+]:
 
     // c
-	@calculatedFrom(
 
-""\" ++ [233]%N ++ runes_of_ascii """ ),}
-packet
-A
+MetaDataX ,0  : 
+u8x} , } options  {  zchar
+= 
+false
 
-{  }
+    ;
+	i64_=
+	zchar[
+    7]
+	;
 
-")).
-Eval vm_compute in ("<<<M354>>>" ++ check (runes_of_ascii "MetaData o { charz calculatedFrom`
-` // a // b
-, float64 rootA , } packet A
-{  asx
-    @lengthOf(
-packetx
-)
-`u8 x,` , @lengthOf(
-packetx
-    ) a1 {  int32 matchKey @lengthOf( asx ) `" ++ [28040; 24687; 31867; 22411]%N ++ runes_of_ascii "` , Header `{ , }` ,	repeat f64 falsey `100% of %d`// 50% %s
+    BodyLength
+=
+    ""1"" i8i8 = 	 // @lengthOf(
+	true
+
+    ; 
+_x  // packet A { u8 x, }
+  = ""// no comment"";
+}	packet 	 //	t
+    crc	{ match
+As	as	zchar { 0
+:
+    leftPad
+, [	0
+
+,255  ,
+""" ++ [233]%N ++ runes_of_ascii "t" ++ [233]%N ++ runes_of_ascii """,
+
+""x y""
+
+    , 
+""`tick`"" ,4294967296
+,""" ++ [233]%N ++ runes_of_ascii "t" ++ [233]%N ++ runes_of_ascii """  //	t
 ,
-}  ,
-repeat
-    u32// `tick` ""quote"" 'q'
-lengthOf , u64 Z9_ ,
-    /// triple
-    @lengthOf( _x ) packetx{_x , /// triple
-}
-// " ++ [27880; 37322]%N ++ runes_of_ascii "
-//	t
-, zchar[ 1]
-a1 @lengthOf( chars
-)	,	u64	crc	`100% of %d` , char[65535 ]
-    chars
-, }
-    root packet int { }
 
+    """" ]
+    :stringy [
+0  ,
+    ""{,}"" 
+,""packet"",
+
+    3 
+,
+
+    65535 ,
+
+42	, ""packet""
+, 
+0] :
+A
+    00
+:
+
+    x }	,
+@tag( 42 )
+
+    match
+chars	as
+    x
+    {
+	[ ""packet"" ,  65535] ://x
+    T
+,  """ ++ [28040; 24687]%N ++ runes_of_ascii """
+
+    :
+	float
+	,
+    """ ++ [28040; 24687]%N ++ runes_of_ascii """  :
+
+packetx
+0: 
+        /// triple
+    trueish
+
+    , """ ++ [128512]%N ++ runes_of_ascii """ 
+:	pack
+	,}
+    , // packet A { u8 x, }
+    @calculatedFrom(""abc""  )
+
+    stringy
+pack
+, }packet
+    msg_type{}
 ")).
-Eval vm_compute in ("<<<M360>>>" ++ check (runes_of_ascii "root packet
-    MetaDataX
-    { u16 Logon@lengthOf( body
-), match
-lengthOf as As {
-    // " ++ [128512]%N ++ runes_of_ascii " emoji
-    7 :As	42 :
-rootA
-    , 0123456789 : repeatCount
-    ,
-""abc"":Packet ,
-""1"": trueish ""a	b"" :
-//x
-// " ++ [128512]%N ++ runes_of_ascii " emoji
-leftPad  ,	}	, match x as A// 50% %s
-{ ""`tick`"" : trueish ,}
-, uint32 u8x`tab	here`	, tag @calculatedFrom(
-    """ ++ [28040; 24687]%N ++ runes_of_ascii """
-    ),
-repeat body//	t
-repeatCount ,
-@calculatedFrom(""x y"")  asx @calculatedFrom( // `tick` ""quote"" 'q'
-""a\""b""
-    ) , }")).
-Eval vm_compute in ("<<<M1376>>>" ++ check (runes_of_ascii "options {
-    ArrayPrefixLenType = u64;
-    FixedStringPadFromLeft = true;
+Eval vm_compute in ("<<<M1347>>>" ++ check (runes_of_ascii "// top
+packet
+    // c0
+NewOrder {
+    // c2
+u32 // c3
+qty ,
+    // c5
+} packet
+    // c7
+Cancel { u64 // c10a
+  // c10b
+id // c11
+, // c12a
+  // c12b
+} packet // c14a
+  // c14b
+Business // c15
+{ // c16
+u8 Kind // c18
+, match // c20
+Kind // c21a
+  // c21b
+as Detail
+    // c23
+{ 1 // c25
+: NewOrder
+    // c27
+, // c28a
+  // c28b
+2 :
+    // c30
+Cancel // c31a
+  // c31b
+, }
+    // c33
+, // c34
+} packet // c36
+TcpFrame // c37a
+  // c37b
+{ // c38
+u8 // c39a
+  // c39b
+T // c40
+, // c41
+match // c42
+T as
+    // c44
+Body
+    // c45
+{ 1 : // c48a
+  // c48b
+Business , } // c51a
+  // c51b
+, // c52a
+  // c52b
+} // c53
+packet // c54
+UdpFrame {
+    // c56
+u8 // c57
+U
+    // c58
+, // c59
+match // c60a
+  // c60b
+U as // c62
+Body // c63a
+  // c63b
+{
+    // c64
+1 : // c66
+Business , // c68a
+  // c68b
+} // c69
+,
+    // c70
+Business
+    // c71
+extra
+    // c72
+, } root // c75a
+  // c75b
+packet // c76a
+  // c76b
+Wire
+    // c77
+{ // c78
+TcpFrame
+    // c79
+, // c80a
+  // c80b
+UdpFrame // c81a
+  // c81b
+, // c82
+} // c83
+")).
+Eval vm_compute in ("<<<M1732>>>" ++ check (runes_of_ascii "options {
+    LittleEndian = false;
+    StringPrefixLenType = u16;
+    ArrayPrefixLenType = u8;
     FixedStringPadChar = '0';
 }
-packet Order {
-}
-root packet Leg {
-    char[] Ref,
-    repeat Order,
-    f32 Acct,
-    @leftPad('0') char[10] venue,
-    @rightPad('0') char[3] seqNo,
-    repeat u64 Px,
-    u8 Flags,
-    u32 lastPx @lengthOf(Body),
-    match Flags as Body {
-        185 : Order,
+
+packet Leg {
+    zchar[1] Ref,
+    repeat string count,
+    repeat InMsgkind21 {
+        repeat char[2] price,
+        uint64 sym,
+        zchar[9] msgKind,
     },
-    u16 sym @calculatedFrom(""CRC32""),
+    zchar[5] Note,
+}
+
+packet Ack {
+    u16 seqNo,
+    repeat char[1] Acct,
+    @leftPad(' ')
+    char[4] msgKind,
+    repeat InTag747 {
+        Leg,
+    },
+    repeat string Tail,
+    Leg,
+}
+
+packet Trade {
+    u64 clOrdID,
+    repeat InLastpx24 {
+        char[10] Note,
+        char[3] Qty,
+        repeat char[2] Side2,
+        Ack,
+        repeat InX47 {
+            Ack,
+        },
+    },
+}
+
+root packet Heartbeat {
+    repeat u64 Acct,
+    string lastPx,
+    u8 Side2,
+    match Side2 as Body {
+        2 : Trade,
+        157 : Ack,
+        46 : Leg,
+    },
+    u32 sym @calculatedFrom(""CR\
+        C32""),
+}")).
+Eval vm_compute in ("<<<M1383>>>" ++ check (runes_of_ascii "options {
+    ArrayPrefixLenType = u32;
+    FixedStringPadFromLeft = false;
+    FixedStringPadChar = '0';
+}
+packet Trade {
+    repeat InVenue78 {
+        u16 tag7,
+        repeat InLastpx9 {
+            u8 pad0,
+        },
+        int64 Tail,
+        repeat InQty37 {
+            char[2] OrderId,
+            zchar[6] lastPx,
+            int64 Qty,
+        },
+        uint8 Side2,
+    },
+}
+packet Logon {
+    repeat string venue,
+    @rightPad('\x00') char[3] sym,
+    zchar[9] count,
+    zchar[7] f1,
+    Trade,
+}
+packet Logout {
+}
+root packet Reject {
+    int32 sym,
+    u8 Px,
+    u32 Tail @lengthOf(Body),
+    match Px as Body {
+        184 : Trade,
+        173 : Logon,
+        12 : Logout,
+    },
+    u32 tag7 @calculatedFrom(""CR\
+C32""),
 }
 ")).
-Eval vm_compute in ("<<<M1573>>>" ++ check (runes_of_ascii "MetaData body {
-    //x
-    asx As,
-    Foo calculatedFrom ``,
-    packetx pack `{ , }`,// packet A { u8 x, }
-    u8x falsey `say ""hi""`,
-    float32 float `line1
+Eval vm_compute in ("<<<M344>>>" ++ check (runes_of_ascii "// a // b
+packet
+    rootA	{ @tag( 0 ) string falsey @calculatedFrom( ""// no comment"" ) ,
+u32 string_ ,
+} packet Header {
+    //	t
+    repeat // c
+zchar[10// " ++ [27880; 37322]%N ++ runes_of_ascii "
+] Header`" ++ [28040; 24687; 31867; 22411]%N ++ runes_of_ascii "`
+    ,
+}root
+    packet// trailing space 
+charz
+    { @tag(42 ) f32 Z9_ // packet A { u8 x, }
+@calculatedFrom(
+""a\""b"")	`it's`
+    , @calculatedFrom( ""\" ++ [233]%N ++ runes_of_ascii """ )match rootA as
+    rootA
+{ """ ++ [28040; 24687]%N ++ runes_of_ascii """ :
+    //	t
+    x 7//
+:charz }
+    ,// c
+int64
+    metadata @calculatedFrom( """ ++ [233]%N ++ runes_of_ascii "t" ++ [233]%N ++ runes_of_ascii """ ) ,match i8i8 as i64_ { 3 : Logon
+    , [
+7 , """ ++ [28040; 24687]%N ++ runes_of_ascii """ ]: repeatCount
+    // `tick` ""quote"" 'q'
+    , ""\" ++ [233]%N ++ runes_of_ascii """ : msg_type//
+, }
+    //
+    ,
+@lengthOf( Logon
+) repeat
+    leftPad  BodyLength
+,	repeat//	t
+uint8x `
+` , }
+")).
+Eval vm_compute in ("<<<M1133>>>" ++ check (runes_of_ascii "// top
+packet
+    // c0
+float
+    // c1
+{
+    // c2
+@rightPad
+    // c3
+(
+    // c4
+)
+    // c5
+rootA
+    // c6
+@lengthOf(
+    // c7
+trueish
+    // c8
+)
+    // c9
+,
+    // c10
+stringy
+    // c11
+@lengthOf(
+    // c12
+matchKey
+    // c13
+)
+    // c14
+,
+    // c15
+char[
+    // c16
+4294967296
+    // c17
+]
+    // c18
+pack
+    // c19
+@lengthOf(
+    // c20
+uint8x
+    // c21
+)
+    // c22
+,
+    // c23
+}
+    // c24
+root
+    // c25
+packet
+    // c26
+trueish
+    // c27
+{
+    // c28
+repeat
+    // c29
+uint64
+    // c30
+u128
+    // c31
+`say ""hi""`
+    // c32
+,
+    // c33
+}
+    // c34
+")).
+Eval vm_compute in ("<<<M269>>>" ++ check (runes_of_ascii "options {stringy = 00//
+f32a= // " ++ [128512]%N ++ runes_of_ascii " emoji
+uint16 ;u8x = int64 ; // " ++ [27880; 37322]%N ++ runes_of_ascii "
+}
+root packet Header { body { // @lengthOf(
+string	repeatCount	@calculatedFrom( ""x y"") `// not a comment` ,
+    match roots as uint8x
+    { ""a\\"": T , } , repeat i64_ { trueish @lengthOf( x_y_z )`" ++ [28040; 24687; 31867; 22411]%N ++ runes_of_ascii "` , } , } , int64 Packet , match
+pack as
+zchar
+    {
+    ""it's""
+    : Header ,	[""a\\"" , 3] :calculatedFrom ,
+    00 : options1// packet A { u8 x, }
+, 0
+    // c
+    : u8x
+    [ 65535 , 0123456789]
+: float  255
+: uint8x,} ,	}
+    MetaData
+u {// a // b
+}
+")).
+Eval vm_compute in ("<<<M1440>>>" ++ check (runes_of_ascii "
+MetaData x_y_z
+
+{
+	zchar[
+
+00 
+] MetaDataX  // a // b
+		,
+
+    }root
+packet 
+u 
+{  @lengthOf( 
+// @lengthOf(
+	// a // b
+  	calculatedFrom
+	) 
+repeat
+
+    Header{ charz
+
+    @lengthOf(
+matchKey)	,repeat
+u8	// trailing space 
+	charz ,char[]float @calculatedFrom( 
+""CRC32""	)`{ , }` ,
+}
+,}
+	root packet lengthOf 
+{  @tag(
+    7
+
+    )
+
+@lengthOf( 
+o)
+
+    @tag(
+	0 
+)  BodyLength	@calculatedFrom( 
+
+    // " ++ [128512]%N ++ runes_of_ascii " emoji
+  //
+  ""a\\""
+)
+, }options{ f32a  =  ""// no comment""
+    ;}
+")).
+Eval vm_compute in ("<<<M1952>>>" ++ check (runes_of_ascii "MetaData T {
+    char[0123456789] rootA `line1
     line2`,
-    char[] u `it's`,
+    i32 Logon,
+    rootA asx,
 }
 
-packet asx {
-    uint32 pack @calculatedFrom(""CRC32"") `line1
-    line2`,
-    char[65535] roots,
-    Z9_ zchar,
-    repeat uint64 float `line1
-    line2`,
-}
-
-root packet options1 {
-}")).
-Eval vm_compute in ("<<<M1470>>>" ++ check (runes_of_ascii "root packet u128 {
-    a1 @calculatedFrom(""a\""b""),
-}
-
-root packet pack {
-    BodyLength @calculatedFrom(""{,}"") `// not a comment`,//x
-    uint8x,
-    i64 rootA,
-    @lengthOf(BodyLength)
-    string zchar,// " ++ [128512]%N ++ runes_of_ascii " emoji
-}
-
-packet _x {
-    @tag(7)
-    match trueish as packetx {
-        10 : Header,
-        7 : trueish,
-        ""a\""b"" : pack,
-    },
-}")).
-Eval vm_compute in ("<<<M1858>>>" ++ check (runes_of_ascii "packet leftPad {
-    @tag(10)
-    @tag(007)
-    @lengthOf(a1)
-    repeat metadata,
+root packet Header {
+    uint32 len @lengthOf(u) `
+    `,
+    repeat char MetaDataX `" ++ [28040; 24687; 31867; 22411]%N ++ runes_of_ascii "`,
+    uint8x @lengthOf(zchar) `u8 x,`,
+    uint8 Z9_,
+    @lengthOf(u128)
+    @lengthOf(MetaDataX)
+    @tag(0123456789)
+    Logon @lengthOf(body),
 }
 
 options {
-    // " ++ [128512]%N ++ runes_of_ascii " emoji
-    lengthOf = """ ++ [128512]%N ++ runes_of_ascii """;
+    Z9_ = uint32;
+    options1 = '\x00'
 }
 
-packet T {
-    A {
-        tag @calculatedFrom(""abc""),
-    },
-    @lengthOf(matchKey)
-    string Header @lengthOf(metadata),
-    leftPad @calculatedFrom(""a\""b"") `tab	here`,
+options {
+    Foo = ""// no comment"";
+}
+
+packet float {
 }")).
-Eval vm_compute in ("<<<M1405>>>" ++ check (runes_of_ascii "options {
+Eval vm_compute in ("<<<M1537>>>" ++ check (runes_of_ascii "packet uint8x {
+}
+
+root packet repeatCount {
+    @rightPad('\x00')
+    // 50% %s
+    i16 roots,
+    @rightPad()
+    repeat trueish {
+        tag @calculatedFrom(""1"") `line1
+        line2`,
+        string crc `100% of %d`,
+        repeat char[] trueish `// not a comment`,
+        repeat BodyLength u `{ , }`,
+    },
+    char tag,
+    @lengthOf(body)
+    @tag(007)
+    @calculatedFrom(""" ++ [128512]%N ++ runes_of_ascii """)
+    char[007] uint8x,
+}")).
+Eval vm_compute in ("<<<M1897>>>" ++ check (runes_of_ascii "root packet rootA {
+    @tag(3)
+    T {
+        int64 pack @calculatedFrom(""a\\"") `tab	here`,
+        char[10] float,
+        u {
+            repeat f32 chars,
+        },
+        char[] f32a @lengthOf(zchar),
+    },
+    @calculatedFrom(""CRC32"")
+    u32 x_y_z @lengthOf(Header) `say ""hi""`,
+    @tag(65535)
+    char Logon `line1
+    line2`,
+    float32 zchar `// not a comment`,
+}")).
+Eval vm_compute in ("<<<M1717>>>" ++ check (runes_of_ascii "MetaData o {
+    float32 Z9_ `two words`,
+    char[0123456789] As,
+    char[4294967296] u8x `100% of %d`,/// triple
+}
+
+packet u8x {
+    @rightPad(' ')
+    match len as packetx {
+        [
+            ""a	b"", 10, 42, 007, 4294967296,
+            ""packet"", ""it's""
+        ] : x_y_z,
+        0 : o,
+    },
+}
+
+MetaData calculatedFrom {
+    char[3] len,
+}")).
+Eval vm_compute in ("<<<M1677>>>" ++ check (runes_of_ascii "packet float {
+    // c2
+    @rightPad()
+    // c5a
+    // c5b
+    rootA @lengthOf(trueish),
+    // c10
+    stringy @lengthOf(matchKey),// c15a
+    // c15b
+    char[4294967296] pack @lengthOf(uint8x),
+    // c23
+}// c24
+
+root packet trueish {
+    // c28
+    repeat uint64 u128 `say ""hi""`,
+    // c33
+}
+// c34")).
+Eval vm_compute in ("<<<M1753>>>" ++ check (runes_of_ascii "options {
     LittleEndian = true;
 }
 
 packet Sub {
     u8 a,
     @calculatedFrom(""CRC16"")
-    u64 SubSum,
+    uint64 SubSum,
 }
 
 root packet Frame {
@@ -781,154 +836,189 @@ root packet Frame {
     Sub Body,
     string note,
     @calculatedFrom(""CRC16"")
-    u64 Checksum,
+    uint64 Checksum,
     u8 tail,
 }")).
-Eval vm_compute in ("<<<M308>>>" ++ check (runes_of_ascii "MetaData packetx
-    { zchar[ 255 ]	u128`" ++ [233]%N ++ runes_of_ascii "` ,  } packet Pad {
-repeat crc ,
-zchar[
-10 ]  calculatedFrom `{ , }`
-,}packet _x
-    {@lengthOf(
-roots )match Header
-as metadata
-    // " ++ [27880; 37322]%N ++ runes_of_ascii "
-    {  [ 10
-    ]	:pack } , char[
-255 ] // 50% %s
-Logon
-, } // a // b")).
-Eval vm_compute in ("<<<M392>>>" ++ check (runes_of_ascii "packet
-    asx asx { @calculatedFrom(
-""""  ) @tag( 255 )repeat
-// packet A { u8 x, }
-// trailing space 
-int16 u8x
+Eval vm_compute in ("<<<M1755>>>" ++ check (runes_of_ascii "packet
+options1
+
+{ @calculatedFrom(	""""
+) @rightPad ('\x00')
+
+    char[
+007 ]
+	msg_type
 ,
-@tag(
-    //
-    007 )
-    @tag( 0
-    /// triple
-    ) @tag( 1) u
-    @lengthOf( T ),
-// `tick` ""quote"" 'q'
-//x
-} // " ++ [128512]%N ++ runes_of_ascii " emoji")).
-Eval vm_compute in ("<<<M484>>>" ++ check (runes_of_ascii "packet
-    asx { @calculatedFrom(
-""""  ) @tag( 255 )repeat
-// packet A { u8 x, }
-// trailing space 
-int16 u8x
+
+    i64 Header
+
+`" ++ [233]%N ++ runes_of_ascii "`
 ,
-@tag(
-    //
-    007 )
-    @tag( 0
-    /// triple
-    ) uint32 1) u
-    @lengthOf( T ),
-// `tick` ""quote"" 'q'
-//x
-} // " ++ [128512]%N ++ runes_of_ascii " emoji")).
-Eval vm_compute in ("<<<M464>>>" ++ check (runes_of_ascii "packet
-    asx { @calculatedFrom(
-""""  ) @tag( 255 )repeat
-// packet A { u8 x, }
-// trailing space 
-int16 u8x
-,
-@tag(
-    //
-    007 [
-    @tag( 0
-    /// triple
-    ) @tag( 1) u
-    @lengthOf( T ),
-// `tick` ""quote"" 'q'
-//x
-} // " ++ [128512]%N ++ runes_of_ascii " emoji")).
-Eval vm_compute in ("<<<M521>>>" ++ check (runes_of_ascii "packet
-    asx { @calculatedFrom(
-""""  ) @tag( 255 )repeat
-// packet A { u8 x, }
-// trailing space 
-int16 u8x
-,
-@tag(
-    //
-    007 )
-    @tag( 0
-    /// triple
-    ) @tag( 1) u
-    @lengthOf( T ),
-// `tick` ""quote"" 'q'
-//x
- // " ++ [128512]%N ++ runes_of_ascii " emoji")).
-Eval vm_compute in ("<<<M1400>>>" ++ check (runes_of_ascii "packet Sub {
-    u8 a,
-    @calculatedFrom(""CRC16"") i64 SubSum,
-}
-root packet Frame {
-    u16 MsgType,
-    u16 BodyLen @lengthOf(Body),
-    Sub Body,
-    string note,
-    @calculatedFrom(""CRC16"") i64 Checksum,
-    u8 tail,
+//	t
+@calculatedFrom(""packet""
+	) @calculatedFrom( ""`tick`""
+)	@calculatedFrom(
+	""a	b""
+
+    ) i32
+
+options1
+	@lengthOf(
+	Pad
+    ),
+
 }
 ")).
-Eval vm_compute in ("<<<M330>>>" ++ check (runes_of_ascii "packet uint8x { u64	f32a @calculatedFrom( ""`tick`"") ,
-match tag as
-    leftPad { """ ++ [233]%N ++ runes_of_ascii "t" ++ [233]%N ++ runes_of_ascii """: charz // 50% %s
-, } , @leftPad
-( ' ' )
-    int32
-x_y_z // a // b
-,}	options { matchKey =uint16; } // `tick` ""quote"" 'q'")).
-Eval vm_compute in ("<<<M227>>>" ++ check (runes_of_ascii "MetaData Header
-    // " ++ [128512]%N ++ runes_of_ascii " emoji
-    { trueish Pad ,
-} MetaData
-    Z9_ { char[] metadata , Header
-    A
-    ``, uint32 packetx, int16 uint8x ,
-    Header // packet A { u8 x, }
-leftPad , }
-")).
-Eval vm_compute in ("<<<M1779>>>" ++ check (runes_of_ascii "options {
-    Packet = u16;
-    f32a = ""a\""b""
-    lengthOf = '0';
-    uint8x = i8
-    uint8x = '\x00';
-}
-
-packet rootA {
-}
-
+Eval vm_compute in ("<<<M442>>>" ++ check (runes_of_ascii "packet
+    asx { @calculatedFrom(
+""""  ) @tag( 255 )repeat
+// packet A { u8 x, }
+// trailing space 
+int16 u8x u8x
+,
+@tag(
+    //
+    007 )
+    @tag( 0
+    /// triple
+    ) @tag( 1) u
+    @lengthOf( T ),
+// `tick` ""quote"" 'q'
+//x
+} // " ++ [128512]%N ++ runes_of_ascii " emoji")).
+Eval vm_compute in ("<<<M537>>>" ++ check (runes_of_ascii "packet
+    asx { @calculatedFrom(
+""""  ) @tag( 255 )repeat
+// packet A { u8 x, }
+// trailing space 
+int16 u8x
+,\
+@tag(
+    //
+    007 )
+    @tag( 0
+    /// triple
+    ) @tag( 1) u
+    @lengthOf( T ),
+// `tick` ""quote"" 'q'
+//x
+} // " ++ [128512]%N ++ runes_of_ascii " emoji")).
+Eval vm_compute in ("<<<M498>>>" ++ check (runes_of_ascii "packet
+    asx { @calculatedFrom(
+""""  ) @tag( 255 )repeat
+// packet A { u8 x, }
+// trailing space 
+int16 u8x
+,
+@tag(
+    //
+    007 )
+    @tag( 0
+    /// triple
+    ) @tag( 1) @lengthOf(
+    u T ),
+// `tick` ""quote"" 'q'
+//x
+} // " ++ [128512]%N ++ runes_of_ascii " emoji")).
+Eval vm_compute in ("<<<M421>>>" ++ check (runes_of_ascii "packet
+    asx { @calculatedFrom(
+""""  ) @tag(  )repeat
+// packet A { u8 x, }
+// trailing space 
+int16 u8x
+,
+@tag(
+    //
+    007 )
+    @tag( 0
+    /// triple
+    ) @tag( 1) u
+    @lengthOf( T ),
+// `tick` ""quote"" 'q'
+//x
+} // " ++ [128512]%N ++ runes_of_ascii " emoji")).
+Eval vm_compute in ("<<<M1860>>>" ++ check (runes_of_ascii "// c
 options {
-    uint8x = ""\" ++ [233]%N ++ runes_of_ascii """
+    As = '0';
+    float = char[]
+    u = ""a\""b"";
+    msg_type = u32;
+    falsey = 7;/// triple
 }
 
-MetaData Packet {
-}")).
-Eval vm_compute in ("<<<M1944>>>" ++ check (runes_of_ascii "packet roots {
-    f64 u @calculatedFrom(""a\\""),
-    @tag(1)
-    zchar[0] stringy @lengthOf(u),
+// a // b
+packet x_y_z {
+    T ``,
 }
 
-MetaData body {
-    BodyLength tag,
-    u32 MetaDataX,// @lengthOf(
-}")).
-Eval vm_compute in ("<<<M715>>>" ++ check (runes_of_ascii "packet
+packet pack {
+    @leftPad()
+    rootA float,
+}// packet A { u8 x, }")).
+Eval vm_compute in ("<<<M1613>>>" ++ check (runes_of_ascii "// top
+packet FooBar {
+    // c2
+    u8 a,// c5
+}
+
+// c6
+packet foo_bar {
+    // c9
+    u16 b,// c12a
+    // c12b
+}
+
+// c13
+root packet R {
+    FooBar,// c19a
+    // c19b
+    foo_bar,// c21
+}// c22")).
+Eval vm_compute in ("<<<M134>>>" ++ check (runes_of_ascii "MetaData len
+{ x_y_z options1
+    `// not a comment` //
+,
+f32	msg_type
+    // " ++ [27880; 37322]%N ++ runes_of_ascii "
+    `
+` , char[]string_,} // c
+MetaData // `tick` ""quote"" 'q'
+packetx
+{
+string
+u128 `say ""hi""`
+, }")).
+Eval vm_compute in ("<<<M587>>>" ++ check (runes_of_ascii "MetaData u
+    { } MetaData o
+{ float uint8x uint8x
+`100% of %d` ,repeatCount u8x, string_ leftPad
+, i32
+    Foo , int64 x `two words` , calculatedFrom
+stringy `a\` ,
+}
+")).
+Eval vm_compute in ("<<<M577>>>" ++ check (runes_of_ascii "MetaData u
+    { } MetaData o
+{ { float uint8x
+`100% of %d` ,repeatCount u8x, string_ leftPad
+, i32
+    Foo , int64 x `two words` , calculatedFrom
+stringy `a\` ,
+}
+")).
+Eval vm_compute in ("<<<M550>>>" ++ check (runes_of_ascii "@leftPad u
+    { } MetaData o
+{ float uint8x
+`100% of %d` ,repeatCount u8x, string_ leftPad
+, i32
+    Foo , int64 x `two words` , calculatedFrom
+stringy `a\` ,
+}
+")).
+Eval vm_compute in ("<<<M717>>>" ++ check (runes_of_ascii "packet
 crc
 {repeat  Foo A  `u8 x,` ,	@lengthOf( uint8x ) string
-matchKey @lengthOf( stringy ) `a\`
+matchKey @lengthOf( " ++ [252]%N ++ runes_of_ascii "ber ) `a\`
 ,
     // c
     }
@@ -937,223 +1027,133 @@ leftPad
     //	t
     crc
 `" ++ [233]%N ++ runes_of_ascii "`
-,")).
-Eval vm_compute in ("<<<M623>>>" ++ check (runes_of_ascii "MetaData u
+,}")).
+Eval vm_compute in ("<<<M584>>>" ++ check (runes_of_ascii "MetaData u
     { } MetaData o
-{ float uint8x
-`100% of %d` ,repeatCount u8x, string_ ,
-leftPad i32
-    Foo , int64 x `two words` , calculatedFrom
-stringy `a\` ,
-}
-")).
-Eval vm_compute in ("<<<M686>>>" ++ check (runes_of_ascii "MetaData u
-    { } MetaData o
-{ float uint8x
+{ : uint8x
 `100% of %d` ,repeatCount u8x, string_ leftPad
 , i32
     Foo , int64 x `two words` , calculatedFrom
 stringy `a\` ,
-
-")).
-Eval vm_compute in ("<<<M621>>>" ++ check (runes_of_ascii "MetaData u
-    { } MetaData o
-{ float uint8x
-`100% of %d` ,repeatCount u8x, string_ 
-, i32
-    Foo , int64 x `two words` , calculatedFrom
-stringy `a\` ,
 }
 ")).
-Eval vm_compute in ("<<<M1556>>>" ++ check (runes_of_ascii "
-packet A
-
-{
-	match
-
-k
-    as n	{ [1
-,""bb""
-,
-    007
-
+Eval vm_compute in ("<<<M1770>>>" ++ check (runes_of_ascii "packet A {
+    match k as n {
+        [
+            ""a"", ""bb"", ""c c"", ""d"", ""e"",
+            ""f"", ""g"", ""h"", ""i"", ""j""
+        ] : B,
+        2 : C,
+    },
+}")).
+Eval vm_compute in ("<<<M1658>>>" ++ check (runes_of_ascii "packet A {
+    match k as n {
+        [
+            ""a"", 22, ""c c"", 4, ""e"",
+            66, ""g"", 8, ""i"", 10
+        ] : B,
+        2 : C,
+    },
+}")).
+Eval vm_compute in ("<<<M46>>>" ++ check (runes_of_ascii "packet u8x  { @leftPad ( //	t
+'0'//x
+)
+    uint8x lengthOf
+    `line1
+line2`
+    // 50% %s
     ,
-    ""d""
-    ,5
-, ""f""
-,
-7
-,""h"" , 9
-
-,""j""
-
-, 
-11,	""l"" ]
-
-    :B , 2 :
-
-    C 
-},} ")).
-Eval vm_compute in ("<<<M1271>>>" ++ check (runes_of_ascii "  packet	B
-{u8
-    a 
-,  }  root packet
-
-    P{
-	u8
-	K ,u8 L
-
-    @lengthOf(	Body )
-,
-
-    match
-K 
-as 
-Body	{
-1
-
-:
-B	, }
-    ,
-} ")).
-Eval vm_compute in ("<<<M1296>>>" ++ check (runes_of_ascii "// top
-root // c0
-packet P // c2a
-  // c2b
-{ // c3a
-  // c3b
-string
-    // c4
-s // c5a
-  // c5b
-, // c6a
-  // c6b
-} // c7a
-  // c7b
-")).
-Eval vm_compute in ("<<<M1289>>>" ++ check (runes_of_ascii "
-options
-	{	LittleEndian
-	= true
-
-;
-
 }
-root
-
-packet 
-P
-    {
-	u16
-a, u32 Sum
-
-    @calculatedFrom( ""CRC32""
-    ) 
-,	}
+packet msg_type{
+}MetaData u {
+}
 
 ")).
-Eval vm_compute in ("<<<M655>>>" ++ check (runes_of_ascii "MetaData u
-    { } MetaData o
-{ float uint8x
-`100% of %d` ,repeatCount u8x, string_ leftPad
-, i32
-    Foo , int64")).
-Eval vm_compute in ("<<<M1219>>>" ++ check (runes_of_ascii "options { } options { MetaDataX = char ; // c
-} MetaData Pad { i8 metadata , string stringy , int8 As `{ , }` , }")).
-Eval vm_compute in ("<<<M362>>>" ++ check (runes_of_ascii "options { }
-options {
-    _x=
-    ""`tick`""; matchKey
-=""it's"" ; options1= u16; stringy =	true }packet x_y_z{ }
+Eval vm_compute in ("<<<M1518>>>" ++ check (runes_of_ascii "packet A {
+    match k as n {
+        [
+            1, 22, 007, 4, 5,
+            66, 7, 8
+        ] : B,
+        2 : C,
+    },
+}")).
+Eval vm_compute in ("<<<M1955>>>" ++ check (runes_of_ascii "
 
-")).
-Eval vm_compute in ("<<<M1915>>>" ++ check (runes_of_ascii "
-packet B
-    {
+  options {  LittleEndian 
+=
 
-    u8
+    true; 
+}  root packet	P
+{ 
+u16 
 a
-,
-string  s ,
-} root
+	,u32
 
-packet P
-	{  u16  L @lengthOf(
-B
-	) 
-, B ,  u8
-t ,}
+Sum 
+@calculatedFrom(
+""CR\
+C32"" ) , }
 ")).
-Eval vm_compute in ("<<<M918>>>" ++ check (runes_of_ascii "packet A {
+Eval vm_compute in ("<<<M1210>>>" ++ check (runes_of_ascii "options { } options
+// c
+{ MetaDataX = char ; } MetaData Pad { i8 metadata , string stringy , int8 As `{ , }` , }")).
+Eval vm_compute in ("<<<M1242>>>" ++ check (runes_of_ascii "options { } options { MetaDataX = char ; } MetaData Pad { i8 metadata , string stringy , int8
+// c
+As `{ , }` , }")).
+Eval vm_compute in ("<<<M645>>>" ++ check (runes_of_ascii "MetaData u
+    { } MetaData o
+{ float uint8x
+`100% of %d` ,repeatCount u8x, string_ leftPad
+, i32
+    Foo")).
+Eval vm_compute in ("<<<M328>>>" ++ check (runes_of_ascii "// `tick` ""quote"" 'q'
+packet o {} options { }MetaData
+    trueish{ u64
+repeatCount`100% of %d`,
+    }")).
+Eval vm_compute in ("<<<M1703>>>" ++ check (runes_of_ascii "packet A {
     Inner {
-        u8 x `a
-b`,
-        Deep {
-            u8 y `a
-b`,
+        match k as n {
+            [1, 22, 007, 4] : B,
         },
     },
 }")).
-Eval vm_compute in ("<<<M898>>>" ++ check (runes_of_ascii "packet A {
+Eval vm_compute in ("<<<M120>>>" ++ check (runes_of_ascii "options { T = 42 packetx
+    = true //	t
+;x_y_z = char[] ;trueish // trailing space 
+=
+u16 }")).
+Eval vm_compute in ("<<<M857>>>" ++ check (runes_of_ascii "packet A {
   match k as n {
-    [1, 22, ""c c"", 4, 5, ""f"", 7, 8, ""i"", 10, 11] : B
+    [""a"", 22, ""c c"", 4, ""e"", 66, ""g"", 8] : B
     2 : C
   },
 }")).
-Eval vm_compute in ("<<<M885>>>" ++ check (runes_of_ascii "packet A {
+Eval vm_compute in ("<<<M26>>>" ++ check (runes_of_ascii "root// trailing space 
+packet uint8x
+{  string stringy
+    @lengthOf(matchKey
+)	, }")).
+Eval vm_compute in ("<<<M814>>>" ++ check (runes_of_ascii "packet A {
   match k as n {
-    [1, 22, ""c c"", 4, 5, ""f"", 7, 8, ""i"", 10] : B
+    [""a"", ""bb"", ""c c"", ""d"", ""e""] : B
     2 : C
   },
 }")).
-Eval vm_compute in ("<<<M1838>>>" ++ check (runes_of_ascii "
-
-  packet A
-	{
-
-match k
-	as  n  { [1
-
-    , 22
-,
-007, 
-4 
-]:	B,
-
-    2
-: C }
-	, }
-")).
-Eval vm_compute in ("<<<M286>>>" ++ check (runes_of_ascii "// a // b
-root packet falsey {
-    }	options {Pad//
-= // " ++ [27880; 37322]%N ++ runes_of_ascii "
-f32 } root packet T { }")).
-Eval vm_compute in ("<<<M831>>>" ++ check (runes_of_ascii "packet A {
+Eval vm_compute in ("<<<M800>>>" ++ check (runes_of_ascii "packet A {
   match k as n {
-    [""a"", 22, ""c c"", 4, ""e"", 66] : B
+    [""a"", ""bb"", ""c c"", ""d""] : B,
     2 : C
   },
 }")).
-Eval vm_compute in ("<<<M901>>>" ++ check (runes_of_ascii "packet A { Inner { match k as n { [1,22,007,4,5,66,7,8,9,10,11] : B, }, }, }")).
-Eval vm_compute in ("<<<M787>>>" ++ check (runes_of_ascii "packet A {
+Eval vm_compute in ("<<<M888>>>" ++ check (runes_of_ascii "packet A { Inner { match k as n { [1,22,007,4,5,66,7,8,9,10] : B, }, }, }")).
+Eval vm_compute in ("<<<M798>>>" ++ check (runes_of_ascii "packet A {
   match k as n {
-    [""a"", ""bb"", ""c c""] : B,
+    [1, 22, 007, 4] : B,
     2 : C
   },
 }")).
-Eval vm_compute in ("<<<M1303>>>" ++ check (runes_of_ascii "
-root	packet
-
-P	{u8
-	s_u8
-    ,repeat
-    u8
-	r_u8 
-, u16  b_len
-,}
-
-")).
 Eval vm_compute in ("<<<M779>>>" ++ check (runes_of_ascii "packet A {
   match k as n {
     [""a"", ""bb""] : B
@@ -1163,51 +1163,61 @@ Eval vm_compute in ("<<<M779>>>" ++ check (runes_of_ascii "packet A {
 Eval vm_compute in ("<<<M33>>>" ++ check (runes_of_ascii "root packet u // @lengthOf(
 { Pad asx ,  calculatedFrom ,}
 ")).
-Eval vm_compute in ("<<<M1862>>>" ++ check (runes_of_ascii "  options 
-{A
-
-    =	""// no comment"" 
-
-    // c
-	}
-
-")).
-Eval vm_compute in ("<<<M1442>>>" ++ check (runes_of_ascii "root packet A {
+Eval vm_compute in ("<<<M1718>>>" ++ check (runes_of_ascii "MetaData M {
     u8 x `a
-        b
-      c`,
+    b`,
+    T t `a
+    b`,
 }")).
-Eval vm_compute in ("<<<M1114>>>" ++ check (runes_of_ascii "packet A { char[ // a
- 3 // b
- ] // c
- x, }")).
-Eval vm_compute in ("<<<M155>>>" ++ check (runes_of_ascii "options {stringy =
-i64 ; float = '0' }")).
-Eval vm_compute in ("<<<M1188>>>" ++ check (runes_of_ascii "options { A
-// c
-= ""// no comment"" }")).
-Eval vm_compute in ("<<<M1538>>>" ++ check (runes_of_ascii "MetaData u128 {
-    body float,
-}")).
-Eval vm_compute in ("<<<M1032>>>" ++ check (runes_of_ascii "packet A {
- u8 x `d" ++ [8232]%N ++ runes_of_ascii "`, // c" ++ [8232]%N ++ runes_of_ascii "
-}")).
-Eval vm_compute in ("<<<M1084>>>" ++ check (runes_of_ascii "packet A {
-}// a// b// c
+Eval vm_compute in ("<<<M1254>>>" ++ check (runes_of_ascii "root packet P {
+    repeat char cs,
+    u8 x,
+}
 ")).
-Eval vm_compute in ("<<<M1141>>>" ++ check (runes_of_ascii "// c
-root packet a1 { }")).
-Eval vm_compute in ("<<<M1440>>>" ++ check (runes_of_ascii "packet
-A
-{ } 	 // c" ++ [133]%N)).
-Eval vm_compute in ("<<<M1031>>>" ++ check (runes_of_ascii "// c" ++ [8232]%N ++ runes_of_ascii "
-packet A {
+Eval vm_compute in ("<<<M1466>>>" ++ check (runes_of_ascii "
+root// a
+  packet  // b
+	A // c
+	{
+	}
+")).
+Eval vm_compute in ("<<<M1884>>>" ++ check (runes_of_ascii "root packet A {
+    u8 x `a
+    b`,
 }")).
-Eval vm_compute in ("<<<M1018>>>" ++ check (runes_of_ascii "packet A {
-}// c" ++ [8192]%N)).
+Eval vm_compute in ("<<<M1441>>>" ++ check (runes_of_ascii "packet A {
+    u8 x,// c
+    u8 y,
+}")).
+Eval vm_compute in ("<<<M1490>>>" ++ check (runes_of_ascii "  // c" ++ [8287]%N ++ runes_of_ascii "
+
+  packet
+
+    A {
+}
+")).
+Eval vm_compute in ("<<<M1002>>>" ++ check (runes_of_ascii "packet A {
+ u8 x `d" ++ [12288]%N ++ runes_of_ascii "`, // c" ++ [12288]%N ++ runes_of_ascii "
+}")).
+Eval vm_compute in ("<<<M1618>>>" ++ check (runes_of_ascii "// c 
+packet 
+A
+	{
+
+    } ")).
+Eval vm_compute in ("<<<M1761>>>" ++ check (runes_of_ascii "root packet msg_type {
+}")).
+Eval vm_compute in ("<<<M1126>>>" ++ check (runes_of_ascii "MetaData tag // c
+{ }")).
+Eval vm_compute in ("<<<M1030>>>" ++ check (runes_of_ascii "packet A {
+}
+// c" ++ [8232]%N)).
+Eval vm_compute in ("<<<M1008>>>" ++ check (runes_of_ascii "packet A {
+}// c" ++ [133]%N)).
 Eval vm_compute in ("<<<M1090>>>" ++ check (runes_of_ascii "packet A {
 }
 
 
 ")).
-Eval vm_compute in ("<<<M1004>>>" ++ check (runes_of_ascii "// c" ++ [160]%N)).
+Eval vm_compute in ("<<<M748>>>" ++ check (runes_of_ascii "&{`8[")).
+Eval vm_compute in ("<<<M723>>>" ++ check (runes_of_ascii " ")).
